@@ -10,9 +10,9 @@ git diff -- geometer > /tmp/keepseed.diff
 suite=$(/venv/bin/python -m pytest -q -p no:cacheprovider tests 2>&1 | tail -1)
 echo "suite with change: $suite"
 /venv/bin/python "$demo" >/tmp/keepseed.with 2>&1; with=$?
-git stash -q -- geometer
+git apply -R /tmp/keepseed.diff
 /venv/bin/python "$demo" >/tmp/keepseed.without 2>&1; without=$?
-git stash pop -q
+git apply /tmp/keepseed.diff
 echo "demo with change: exit $with ; without: exit $without"
 case "$suite" in *"126 passed"*) ;; *) echo "REJECT: suite"; exit 1;; esac
 [ "$with" -ne 0 ] && [ "$without" -eq 0 ] || { echo "REJECT: demo"; exit 1; }
